@@ -1,6 +1,7 @@
 import Holpy.Common.Sexp
 import Holpy.C05.Model
 import Holpy.C05.NormModel
+import Holpy.C05.IntervalModel
 /-
 Line protocol for the C05 model (one s-expression in, one out):
   (nat_eval E)   -> (ok N) | (err KIND)
@@ -9,6 +10,9 @@ Line protocol for the C05 model (one s-expression in, one out):
   (macro NAME E) -> (ok E') | (err KIND)          E' = the asserted statement
   (den E)        -> none | (n K) | (i K) | (q NUM DEN) | (b T|F)     (atoms: no value)
   (wt E)         -> T | F
+  (ivl E ((NAME N D N D N D N D) ...) (N D N D)) -> (ok N D N D) | (err KIND)      [bnd: the same for evalBounds]
+        ivEval with exact rational interval arithmetic, the recorded calls NAME(arg lo, arg hi) = (res lo, res hi) of
+        exp log sqrt sin cos, and the interval used for pi
   (ineq REL N D N D N D N D) -> T | F   REL = eq ne lt le gt ge; bounds lo1 hi1 lo2 hi2 as num den
 NUM = (int K) | (frac NUM DEN)
 E   = (zero T) (one T) (bit0 E) (bit1 E) (suc E) (ofnat T E) (ofint E) (plus T E E) (minus T E E)
@@ -172,6 +176,21 @@ def handle (line : String) : String :=
     match r, q a b, q c d, q e f, q g h with
     | some r, some lo1, some hi1, some lo2, some hi2 => toString (Sexp.ofBool (intervalAccept r lo1 hi1 lo2 hi2))
     | _, _, _, _, _ => "bad-op"
+  | some (.list [.atom which, e, .list rows, .list [pa, pb, pc, pd]]) =>
+    if which != "ivl" && which != "bnd" then "bad-op" else
+    let q (n d : Sexp) : Option Rat := do
+      let n ← n.toInt?
+      let d ← d.toNat?
+      if d == 0 then none else some (mkRat n d)
+    let row : Sexp → Option (String × Iv × Iv)
+      | .list [.atom nm, a, b, c, d, e, f, g, h] => do
+        some (nm, ((← q a b), (← q c d)), ((← q e f), (← q g h)))
+      | _ => none
+    match exprOf e, rows.mapM row, q pa pb, q pc pd with
+    | some x, some tbl, some plo, some phi =>
+      resTo (fun (i : Iv) => Sexp.list [Sexp.ofInt i.1.num, Sexp.ofNat i.1.den, Sexp.ofInt i.2.num, Sexp.ofNat i.2.den])
+        (if which == "ivl" then ivEval (tablePrims tbl (plo, phi)) x else evalBounds (tablePrims tbl (plo, phi)) x)
+    | _, _, _, _ => "bad-op"
   | some (.list [.atom "wt", e]) =>
     match exprOf e with
     | some x => toString (Sexp.ofBool (wt x))
